@@ -78,24 +78,24 @@ Theorem C18_resolvable : forall m n,
 Proof. intros m n EN II. split; [intros rid addr; exact (resolve_live m n rid addr EN II) | exact (resolve_dead m)]. Qed.
 Print Assumptions C18_resolvable.
 
-(* Resolvable, the row id index (chunks keyed by [min id, max id], looked up by range): outside the
-   known-finding class it agrees with the specification FOR EVERY segmentation of the stored sequences. *)
+(* Resolvable, the row id index (chunks keyed by [min id, max id], looked up by range): with monotone live ids it
+   agrees with the specification FOR EVERY segmentation of the stored sequences.  When an update has carried an
+   id into a later fragment the ranges overlap and RowIdIndex::new merges the chunks first (C34's model); the
+   over-strict assertion there (F18) was repaired by repo commit ac0e2db. *)
 Theorem C18_resolvable_index : forall m chunks,
-  Known_C18_rowid_index_overlapping_ranges m = false -> is_segmentation chunks (live_rows m) = true ->
+  ids_non_monotone m = false -> is_segmentation chunks (live_rows m) = true ->
   (forall rid addr, In (rid, addr) (live_rows m) -> index_get chunks rid = Some addr)
   /\ (forall rid, ~ In rid (live_ids m) -> index_get chunks rid = None).
 Proof. exact index_resolves. Qed.
 Print Assumptions C18_resolvable_index.
 
-(* Known finding rowid_index_overlapping_ranges (F18): a well formed manifest satisfying the invariant, with
-   non-monotone live ids, a segmentation and a live id that the range lookup does not find *)
-Theorem C18_rowid_index_overlapping_ranges_refuted :
-  wf_manifest f18_manifest = true /\ ids_inv f18_manifest = true
-  /\ Known_C18_rowid_index_overlapping_ranges f18_manifest = true
-  /\ exists chunks, is_segmentation chunks (live_rows f18_manifest) = true
-       /\ In (1, row_address 1 0) (live_rows f18_manifest) /\ index_get chunks 1 = None.
-Proof. exact overlapping_ranges_refuted. Qed.
-Print Assumptions C18_rowid_index_overlapping_ranges_refuted.
+(* regression for F18: on the delete+update shape every live id resolves (specification and merged chunk) *)
+Theorem C18_f18_regression :
+  map (resolve f18_manifest) [0; 1; 2; 3; 4] = [Some 0; Some (row_address 1 0); Some 2; Some 3; None]
+  /\ map (index_get [[(0, 0); (1, row_address 1 0); (2, 2); (3, 3)]]) [0; 1; 2; 3; 4]
+     = [Some 0; Some (row_address 1 0); Some 2; Some 3; None].
+Proof. exact f18_regression. Qed.
+Print Assumptions C18_f18_regression.
 
 (* The table keeps having stable row ids, except in the known-finding class: a commit made with
    use_stable_row_ids = false (every Dataset::apply_commit caller) that leaves the table without fragments *)
@@ -135,7 +135,7 @@ Print Assumptions C18_rowid_sequence_cache_keyed_by_fragment_id_refuted.
    its id 1 is carried into the new fragment, the inserted row gets the fresh id 5 *)
 Example C18_history_nonvacuous :
   exists v1 v2 v3 v4, id_history [v4; v3; v2; v1] /\ m_next_row_id v4 = Some 6 /\ live_ids v4 = [2; 1; 5]
-    /\ Known_C18_rowid_index_overlapping_ranges v4 = true /\ resolve v4 1 = Some (row_address 2 0).
+    /\ ids_non_monotone v4 = true /\ resolve v4 1 = Some (row_address 2 0).
 Proof.
   pose (file3 := fun path rows : N => mkDataFile path [0%Z; 1%Z; 2%Z] (2, 0) rows).
   eexists. eexists. eexists. eexists. split.
